@@ -451,7 +451,8 @@ example : cliParse (toolNamed "moto_nl") [Tape.str "-hz"] = .error := by decide 
 example : cliParse (toolNamed "moto_nl") [Tape.str "--bogus", Tape.str "-h"] = .help := by decide +kernel
 /-- the hypotheses of `disk_documented_form_accepted` are met by the strings of the manuals -/
 example : ∃ a, classify (toolNamed "moto_fdar") (Tape.str "-c") = .opt a (Tape.str "-c") none ∧ a.inGroup = true ∧ a ∈ (toolNamed "moto_fdar").actions :=
-  ⟨(toolNamed "moto_fdar").actions.getD 3 noAction, by decide +kernel, by decide +kernel, by decide +kernel⟩
+  -- the action is looked up by its option string, not by its position: the order in which the group's actions are declared is free
+  ⟨((toolNamed "moto_fdar").actions.find? (fun a => a.opts.contains (Tape.str "-c"))).getD noAction, by decide +kernel, by decide +kernel, by decide +kernel⟩
 example : Plain (toolNamed "moto_fdar") (Tape.str "d.fd") ∧ DiskSrc (toolNamed "moto_fdar") (Tape.str "a.dat") ∧ DiskSrc (toolNamed "moto_fdar") (Tape.str "--Eos") := by
   refine ⟨⟨by decide +kernel, by decide⟩, Or.inl ⟨by decide +kernel, by decide, by decide⟩, Or.inr ⟨by decide +kernel, by decide⟩⟩
 end examples
